@@ -79,6 +79,13 @@ type Img struct {
 	Services []SvcDesc  `json:"services"`
 	Schemas  []Schema   `json:"schemas"`
 	Roots    [][2]string `json:"roots"`
+	Anns     []EntAnn    `json:"anns,omitempty"` // entity annotations of the objects of the wanted package
+}
+
+// EntAnn: an object of the wanted package that carries an entity annotation (what walkSourceSchemas looks at).
+type EntAnn struct {
+	Pkg, Name, Entity string
+	Part              int
 }
 
 // ---------------------------------------------------------------- jobs and results
@@ -536,10 +543,8 @@ func abstractSchemas(pkg string, schemas map[string]*schema_j5pb.RootSchema, im 
 		case *schema_j5pb.RootSchema_Object:
 			s.Kind, s.Props = "object", propsOf(t.Object.Properties)
 			if e := t.Object.Entity; e != nil && isRoot {
-				switch e.Part {
-				case schema_j5pb.EntityPart_KEYS, schema_j5pb.EntityPart_STATE, schema_j5pb.EntityPart_EVENT:
-					im.Roots = append(im.Roots, [2]string{pkg, name})
-				}
+				// the grouping into entities and the walk roots are the model's (model/PipelineEntity.v)
+				im.Anns = append(im.Anns, EntAnn{Pkg: pkg, Name: name, Entity: e.Entity, Part: int(e.Part)})
 			}
 		case *schema_j5pb.RootSchema_Oneof:
 			s.Kind, s.Props = "oneof", propsOf(t.Oneof.Properties)
